@@ -331,7 +331,7 @@ Definition has_mark (ms : list item) (x : blob) : Prop :=
   match x with
   | BH id => exists da, In (IMarkH id da) ms
   | BD id => exists da, In (IMarkD id da) ms
-  | BJ => True
+  | _ => True
   end.
 
 Lemma has_mark_app_l ms ms' x : has_mark ms x -> has_mark (ms ++ ms') x.
